@@ -105,6 +105,10 @@ func mkvsTrace(args []string) int {
 			x := rng.Intn(100)
 			base := len(r.ovl) == 0
 			switch {
+			case x < 8 && r.fork != nil:
+				op.A, op.K, op.V = "fins", pick(), randVal()
+			case x < 12 && r.fork != nil:
+				op.A, op.K = "frem", pick()
 			case x < 35:
 				op.A, op.K, op.V = "ins", pick(), randVal()
 			case x < 45:
@@ -121,8 +125,10 @@ func mkvsTrace(args []string) int {
 				op.A = "ocommit"
 			case x < 82 && !base:
 				op.A = "oclose"
-			case x < 85 && !base:
+			case x < 84 && !base:
 				op.A = "ocopy"
+			case x < 85 && !base && r.fork == nil:
+				op.A = "ofork"
 			case x < 93:
 				// read: get
 				k := pick()
@@ -207,6 +213,23 @@ func mkvsTrace(args []string) int {
 				break
 			}
 			rec["view"] = view
+			if r.fork != nil {
+				fview := [][2][]int{}
+				perr = guard(func() {
+					it := r.fork.NewIterator(ctx)
+					defer it.Close()
+					for it.Rewind(); it.Valid(); it.Next() {
+						fview = append(fview, [2][]int{ints(it.Key()), ints(it.Value())})
+					}
+					ierr = it.Err()
+				})
+				if perr != nil || ierr != nil {
+					rec["panic"] = fmt.Sprint(perr, ierr)
+					emit(rec)
+					break
+				}
+				rec["fview"] = fview
+			}
 			emit(rec)
 		}
 		r.close()
